@@ -18,6 +18,7 @@ func (c *Ctx) codecEngine() {
 	if p == nil {
 		return
 	}
+	c.wholeCellValues(R)
 	// (a) kind -> width on both sides
 	kindWidth := func(fname string) map[string]string {
 		out := map[string]string{}
@@ -245,4 +246,44 @@ func (c *Ctx) externalEnvelope() {
 	c.check(destOK, R, "destination derives from the address parameter", f.Pos(), "Dest = address.ToMsgAddress()", "the destination of the external message no longer derives from the address parameter")
 	c.check(srcOK, R, "source is addr_none", f.Pos(), "Src = (*AccountID)(nil).ToMsgAddress()", "the source of the external message is no longer addr_none")
 	c.floor(R, 4)
+}
+
+// wholeCellValues: a boc.Cell VALUE (code, data, library, ^Cell fields) carries more than bits
+// and references: its exotic type and level mask determine the descriptor byte and the hash. The
+// encoder therefore replaces the target cell with the value (or copies type and mask as well), and
+// the decoder hands out the whole cell.
+func (c *Ctx) wholeCellValues(R string) {
+	if f := c.mustFn(R, "tlb", "encodeCell"); f != nil {
+		whole := false
+		typ, mask := false, false
+		allInstrs(f, func(_ *ssa.BasicBlock, in ssa.Instruction) {
+			st, ok := in.(*ssa.Store)
+			if !ok {
+				return
+			}
+			if st.Addr == ssa.Value(f.Params[0]) && strings.HasSuffix(st.Val.Type().String(), "boc.Cell") {
+				whole = true
+			}
+			if of, ok := ownerField(st.Addr); ok {
+				if of == "boc.Cell.cellType" {
+					typ = true
+				}
+				if of == "boc.Cell.mask" {
+					mask = true
+				}
+			}
+		})
+		// field stores cannot be made from package tlb (unexported), so any piecewise copy that goes through the
+		// public Write*/AddRef API loses type and mask unless a boc helper is used that the rule does not know
+		c.check(whole || (typ && mask), R, "a Cell value is encoded with its exotic type and level mask", f.Pos(), "*c = value (whole cell)", "tlb.encodeCell copies only bits and references of a boc.Cell value into the target: the exotic type and level mask are lost, so a library/pruned/Merkle cell behind a ^Cell field (wallet v5 beta code) is emitted as an ordinary cell with a different descriptor and hash")
+	}
+	if f := c.mustFn(R, "tlb", "decodeCell"); f != nil {
+		okv := false
+		allInstrs(f, func(_ *ssa.BasicBlock, in ssa.Instruction) {
+			if cl, ok := in.(*ssa.Call); ok && callQName(&cl.Call) == "reflect.Value.Set" {
+				okv = derivesFrom(cl.Call.Args[1], func(v ssa.Value) bool { return v == ssa.Value(f.Params[0]) }, true)
+			}
+		})
+		c.check(okv, R, "a Cell value is decoded as the whole cell", f.Pos(), "val.Set(*c)", "tlb.decodeCell no longer hands out the whole cell it was given")
+	}
 }
